@@ -437,7 +437,8 @@ func finishCase(c *Case, r *vh.Rng, focus string) {
 		c.Policy = "quiet"
 	}
 	c.PauseUs = []int{200, 300, 500, 1000}[r.Below(4)]
-	c.Done = true
+	// Schedule is given a done channel, as the agent always does; one run in 16 passes nil like the package's own tests
+	c.Done = c.Dry || !r.Chance(1, 16)
 	c.Rs = r.Next()
 }
 
@@ -488,7 +489,7 @@ func main() {
 	if tier == "replay" {
 		cases = readCases(os.Args[3])
 	} else {
-		nSmall, nRandom, nmax, nDry := 1800, 4800, 8, 150
+		nSmall, nRandom, nmax, nDry := 1500, 3600, 8, 120
 		if tier == "thorough" {
 			nSmall, nRandom, nmax, nDry = 20000, 60000, 12, 1500
 		}
